@@ -406,6 +406,36 @@ theorem comb_ff_difference_equation (d : ℕ) (α : ℝ) (xs : List ℝ) :
     simp [C04.sigma] at this
     rw [this]
 
+/-- **C13.6a'** (model = spec) the generated loop run on the designed coefficients with zero memory
+computes exactly the executable specification `combFbSpec` (the recursion the driver returns as
+`spec.out`), for every delay ≥ 1, every α, every input. -/
+theorem comb_fb_eq_spec (d : ℕ) (α : ℝ) (xs : List ℝ) :
+    C04.evalIR (C04.compile (combFb (d + 1) α).num (combFb (d + 1) α).den 0)
+        (List.replicate (combFb (d + 1) α).den.tail.length 0) 0 xs
+      = combFbSpec (d + 1) α xs := by
+  by_cases hα : α = 0
+  · subst hα
+    obtain ⟨hn, hd⟩ := combFb_coefs_zero d
+    rw [hn, hd, ALV.Props.C04.filter_eq_spec_zero [1] [] (1 : ℝ) _ xs (by simp)]
+    exact fspec_combFb_zero (d + 1) _ _ xs
+  · obtain ⟨hn, hd⟩ := combFb_coefs d α hα
+    rw [hn, hd, ALV.Props.C04.filter_eq_spec_zero [1] _ (1 : ℝ) _ xs (by simp)]
+    have := fspec_combFb d α [] [] xs
+    simpa [combFbSpec] using this
+
+/-- **C13.6b'** (model = spec) the same for the feedforward comb and `combFfSpec`. -/
+theorem comb_ff_eq_spec (d : ℕ) (α : ℝ) (xs : List ℝ) :
+    C04.evalIR (C04.compile (combFf (d + 1) α).num (combFf (d + 1) α).den 0) [] 0 xs
+      = combFfSpec (d + 1) α xs := by
+  by_cases hα : α = 0
+  · subst hα
+    obtain ⟨hn, hd⟩ := combFf_coefs_zero d
+    rw [hn, hd, ALV.Props.C04.filter_eq_spec_zero [1] [] (1 : ℝ) _ xs rfl]
+    exact fspec_combFf_zero (d + 1) _ _ xs
+  · obtain ⟨hn, hd⟩ := combFf_coefs d α hα
+    rw [hn, hd, ALV.Props.C04.filter_eq_spec_zero _ [] (1 : ℝ) _ xs rfl]
+    exact fspec_combFf d α [] [] xs
+
 /-- **C13.6c** `comb.tau(D, τ)` is `comb.fb(D, α)` with `α = e^{-D/τ}`. -/
 theorem comb_tau_alpha (D : ℕ) (τ : ℝ) : combTau D τ = combFb D (Real.exp (-(D : ℝ) / τ)) := by
   simp only [combTau, tauAlpha, TrigField.real_pow, TrigField.real_exp, c1_real, TrigField.real_ofNat,
@@ -601,6 +631,52 @@ theorem lowpass_highpass_response_defined (st : Strategy) (c : ℝ) (h0 : 0 < c)
     · exact key _ _ (by linarith) (by linarith)
     · exact key _ _ a' b'
     · exact key _ _ (by linarith) (by linarith)
+
+/-- **C13.9a'** the same for every resonator: the response is defined at every frequency. -/
+theorem resonator_response_defined (st : ResStrategy) (f bw : ℝ) (h0 : 0 < f) (h1 : f < Real.pi)
+    (hbw : 0 < bw) (ω : ℝ) : polyMagSq (resonator st f bw).den ω ≠ 0 := by
+  have hR0 := resR_pos bw
+  have hR1 := resR_lt_one bw hbw
+  have hf := cos_sq_lt_one_of_mem f h0 h1
+  have hx := cos_mem ω
+  have key : ∀ (bs : List ℝ) (ct : ℝ), |2 * Real.exp (-(bw / 2)) * ct| < 1 + Real.exp (-(bw / 2)) ^ 2 →
+      polyMagSq (C13.mk bs [1, -(2 * Real.exp (-(bw / 2)) * ct), Real.exp (-(bw / 2)) ^ 2]).den ω ≠ 0 := by
+    intro bs ct h
+    show polyMagSq (trim _) ω ≠ 0
+    rw [polyMagSq_trim, polyMagSq_resDen]
+    exact (resDenSq_pos_of_stable _ _ _ hR0 hR1 h hx.1 hx.2).ne'
+  cases st
+  · simp only [resonator, resonatorPolesExp_eq]
+    exact key _ _ (abs_two_R_ct_lt _ _ hR0 hR1 (ctPoles_sq_lt_one f _ hR0 hf).le)
+  · simp only [resonator, resonatorFreqPolesExp_eq]
+    exact key _ _ (abs_two_R_ct_lt _ _ hR0 hR1 hf.le)
+  · simp only [resonator, resonatorZExp_eq]
+    exact key _ _ (abs_two_R_ctZ_lt f _ hR0 hf)
+  · simp only [resonator, resonatorFreqZExp_eq]
+    exact key _ _ (abs_two_R_ct_lt _ _ hR0 hR1 hf.le)
+
+/-- **C13.9c** the cut-off is THE half-power frequency: on [0, π] the `pole` and `z` designs have
+`|H(e^{jω})|² = 1/2` only at `ω = ω_c` (strict monotonicity + 2a–2d). -/
+theorem cutoff_unique (c ω : ℝ) (h0 : 0 < c) (h1 : c < Real.pi) (hω : ω ∈ Set.Icc 0 Real.pi) :
+    (magSq (lowpass .pole c) ω = 1 / 2 ↔ ω = c) ∧ (magSq (lowpass .z c) ω = 1 / 2 ↔ ω = c) ∧
+    (magSq (highpass .pole c) ω = 1 / 2 ↔ ω = c) ∧ (magSq (highpass .z c) ω = 1 / 2 ↔ ω = c) := by
+  have hc : c ∈ Set.Icc 0 Real.pi := ⟨h0.le, h1.le⟩
+  refine ⟨⟨fun h => ?_, fun h => h ▸ lowpass_pole_half_power c h0 h1⟩,
+          ⟨fun h => ?_, fun h => h ▸ lowpass_z_half_power c h0 h1⟩,
+          ⟨fun h => ?_, fun h => h ▸ highpass_pole_half_power c h0 h1⟩,
+          ⟨fun h => ?_, fun h => h ▸ highpass_z_half_power c h0 h1⟩⟩
+  · exact (lowpass_monotone .pole c h0 h1).injOn hω hc (by
+      show magSq _ ω = magSq _ c
+      rw [h, lowpass_pole_half_power c h0 h1])
+  · exact (lowpass_monotone .z c h0 h1).injOn hω hc (by
+      show magSq _ ω = magSq _ c
+      rw [h, lowpass_z_half_power c h0 h1])
+  · exact (highpass_monotone .pole c h0 h1).injOn hω hc (by
+      show magSq _ ω = magSq _ c
+      rw [h, highpass_pole_half_power c h0 h1])
+  · exact (highpass_monotone .z c h0 h1).injOn hω hc (by
+      show magSq _ ω = magSq _ c
+      rw [h, highpass_z_half_power c h0 h1])
 
 /-- **C13.9b** the resonant frequency of `freq_z_exp` always exists in [0, π] (so 5b gives unit gain
 there for every pole angle and bandwidth); that of `freq_poles_exp` exists iff
